@@ -12,12 +12,26 @@ pub fn check(tree: &Tree, l: &mut Local) -> CaseResult {
     let st = holder.build(tree);
     let expected = schematree::to_owned_expected(tree);
     let conv = no_panic(|| OwnedDataModelType::from(st)).map_err(|p| fail("schema-wire", format!("conversion panicked: {}", p), cj()))?;
-    if conv != expected {
+    // compared structurally through the harness' neutral tree as well (not only with the `PartialEq` of the types under test)
+    if conv != expected || schematree::from_owned(&conv) != *tree {
         return Err(fail(
             "schema-wire",
             format!("OwnedDataModelType::from(borrowed) = {:?}, an independently built owned value is {:?}", conv, expected),
             cj(),
         ));
+    }
+    // the conversion takes any `&DataModelType`: a copy of the root that lives on this stack frame (the same address for
+    // every case) converts to the same thing
+    {
+        let local: postcard_schema::schema::DataModelType = *st;
+        let conv2 = no_panic(|| OwnedDataModelType::from(&local)).map_err(|p| fail("schema-wire", format!("conversion panicked: {}", p), cj()))?;
+        if schematree::from_owned(&conv2) != *tree {
+            return Err(fail(
+                "schema-wire",
+                format!("OwnedDataModelType::from(&copy of the root on the stack) = {:?}, expected {:?}", conv2, expected),
+                cj(),
+            ));
+        }
     }
     let b1 = no_panic(|| postcard::to_allocvec(st)).map_err(|p| fail("schema-wire", format!("serialising the borrowed schema panicked: {}", p), cj()))?;
     let b2 = no_panic(|| postcard::to_allocvec(&conv)).map_err(|p| fail("schema-wire", format!("serialising the owned schema panicked: {}", p), cj()))?;
@@ -32,6 +46,29 @@ pub fn check(tree: &Tree, l: &mut Local) -> CaseResult {
     match back {
         Ok((o, rem)) if o == conv && rem.is_empty() => {}
         other => return Err(fail("schema-wire", format!("bytes of the borrowed schema deserialise to {:?}", other.map(|(o, r)| (o, r.len()))), cj())),
+    }
+    // "a device can send its static schema and any host can receive it": through the framed / streamed transports too
+    {
+        let via_io = no_panic(|| postcard::to_io(st, Vec::<u8>::new())).map_err(|p| fail("schema-wire", format!("to_io of the borrowed schema panicked: {}", p), cj()))?;
+        if via_io.as_ref() != Ok(&b1) {
+            return Err(fail("schema-wire", format!("to_io(borrowed schema) = {:?}, to_allocvec gives {}", via_io.map(|b| hex(&b)), hex(&b1)), cj()));
+        }
+        let mut cw = crate::iodoubles::ChunkWriter::new(crate::iodoubles::Schedule { chunks: vec![3, 1, 40], interrupt_every: 0 }, crate::iodoubles::Fault::None, false);
+        let r = no_panic(|| postcard::to_io(st, &mut cw).map(|_| ())).map_err(|p| fail("schema-wire", format!("to_io of the borrowed schema panicked: {}", p), cj()))?;
+        if r.is_err() || cw.accepted != b1 {
+            return Err(fail("schema-wire", format!("to_io(borrowed schema) into a short-writing sink delivered {}, to_allocvec gives {}", hex(&cw.accepted), hex(&b1)), cj()));
+        }
+        let framed = no_panic(|| postcard::to_allocvec_cobs(st)).map_err(|p| fail("schema-wire", format!("to_allocvec_cobs of the borrowed schema panicked: {}", p), cj()))?;
+        match framed {
+            Ok(mut f) => {
+                let back = no_panic(|| postcard::from_bytes_cobs::<OwnedDataModelType>(&mut f)).map_err(|p| fail("schema-wire", format!("from_bytes_cobs panicked: {}", p), cj()))?;
+                match back {
+                    Ok(o) if schematree::from_owned(&o) == *tree => {}
+                    other => return Err(fail("schema-wire", format!("the COBS-framed borrowed schema is received as {:?}", other), cj())),
+                }
+            }
+            Err(e) => return Err(fail("schema-wire", format!("to_allocvec_cobs of the borrowed schema failed: {:?}", e), cj())),
+        }
     }
     let mut kinds = std::collections::BTreeSet::new();
     tree.visit_kinds(&mut |k| {
